@@ -6,7 +6,7 @@ from typing import Callable, Dict, Iterable, Iterator, List, Optional, Set, Tupl
 
 from ..core import Ctx
 from ..flow import AV, CallSite, Flow, Program
-from ..model import (IMMUTABLE_TYPES, AnalysisError, FuncInfo, Model, Ty, canon, dotted, norm, walk_no_nested)
+from ..model import (BUILTIN_MUTATORS as BUILTIN_MUTATORS_, IMMUTABLE_TYPES, AnalysisError, FuncInfo, Model, Ty, canon, dotted, norm, walk_no_nested)
 
 
 def prog(ctx: Ctx) -> Program:
@@ -638,6 +638,85 @@ def check_params_stable(ctx: Ctx, rule: str = "R-PARAMS"):
 _SLOT_COLLAPSING = ("dict", "SortedDict", "OrderedDict", "set", "SortedSet", "frozenset", "defaultdict")
 
 
+def check_param_defaults(ctx: Ctx, rule: str = "R-DEFAULTS"):
+    """closedness guard: a default value is evaluated once, when the `def` runs - every call that omits the argument receives *that* object.  The
+    rules read a parameter as the caller's value or, behind `if p is None`, as an object made for this call.  A default that builds a mutable
+    object (a display, a container / array constructor, an instance of a package class) which the function then keeps (stores it, or anything
+    reached from it, into an attribute) or updates in place is state shared by all such calls: recognised shape, wrong slot.  Any other
+    non-constant default is reported UNDECIDED (not a verdict).  The pinned tree has constants only."""
+    M = ctx.model
+    n = 0
+    analysed_classes = {M.functions[q].cls.name for q in ctx.functions_analysed if q in M.functions and M.functions[q].cls is not None}
+    related = set(analysed_classes)
+    for cn in analysed_classes:
+        related |= {k.name for k in M.mro(M.classes[cn])} | {k.name for k in M.subclasses.get(cn, [])}
+    todo = {q for q in ctx.functions_analysed if q in M.functions}
+    for cn in related:
+        c = M.classes.get(cn)
+        if c is not None:
+            todo |= {g.qualname for g in list(c.methods.values()) + list(c.getters.values()) + list(c.setters.values())}
+
+    def immutable(d, mod=None, depth=0):
+        if isinstance(d, ast.Constant) or isinstance(d, ast.Lambda):
+            return True
+        if isinstance(d, ast.Name) and mod is not None and depth < 3:
+            # a module-level name bound once, to an immutable value
+            binds = [s_ for s_ in mod.tree.body if isinstance(s_, (ast.Assign, ast.AnnAssign)) and
+                     any(isinstance(t, ast.Name) and t.id == d.id for t in (s_.targets if isinstance(s_, ast.Assign) else [s_.target]))]
+            others = [x for x in ast.walk(mod.tree) if isinstance(x, ast.Name) and x.id == d.id and isinstance(x.ctx, (ast.Store, ast.Del))]
+            return len(binds) == 1 and len(others) == 1 and binds[0].value is not None and immutable(binds[0].value, mod, depth + 1)
+        if isinstance(d, ast.UnaryOp):
+            return immutable(d.operand, mod, depth)
+        if isinstance(d, ast.BinOp):
+            return immutable(d.left, mod, depth) and immutable(d.right, mod, depth)
+        if isinstance(d, ast.Tuple):
+            return all(immutable(e, mod, depth) for e in d.elts)
+        if isinstance(d, ast.Attribute):
+            return dotted(d) in ("np.inf", "np.nan", "numpy.inf", "numpy.nan", "math.inf", "math.pi", "np.pi", "np.float32", "np.float64", "np.int32", "np.int64", "np.int16")
+        if isinstance(d, ast.Call):
+            return dotted(d.func) in ("float", "int", "str", "bool", "tuple", "frozenset", "np.float32", "np.float64", "np.int32", "np.int64") and \
+                all(immutable(a, mod, depth) for a in d.args) and not d.keywords
+        return False
+    for qn in sorted(todo):
+        f = M.functions.get(qn)
+        if f is None or isinstance(f.node, ast.Lambda):
+            continue
+        a = f.node.args
+        pos = a.posonlyargs + a.args
+        pairs = list(zip(pos[len(pos) - len(a.defaults):], a.defaults)) + [(p_, d) for p_, d in zip(a.kwonlyargs, a.kw_defaults) if d is not None]
+        for p_, d in pairs:
+            if immutable(d, f.module):
+                continue
+            n += 1
+            prm = p_.arg
+            mutable = isinstance(d, (ast.List, ast.Dict, ast.Set, ast.ListComp, ast.DictComp, ast.SetComp)) or \
+                (isinstance(d, ast.Call) and ((dotted(d.func) or "") in _MUTABLE_CTORS or (dotted(d.func) or "").split(".")[-1] in M.classes))
+            if not mutable:
+                ctx.undecided(rule, f, d, f"default `{prm}={norm(d)}` of {qn} is evaluated once at definition: whether the object is shared state is not decided here "
+                              f"(not a verdict)", construct=f"{qn}({prm}=)", key=f"default:{qn}:{prm}")
+                continue
+            kept = [s_ for s_ in walk_no_nested(f.node) if isinstance(s_, ast.Assign) and any(isinstance(t, ast.Attribute) for t in s_.targets) and
+                    any(isinstance(x, ast.Name) and x.id == prm for x in ast.walk(s_.value))]
+            updated = [s_ for s_ in walk_no_nested(f.node) if
+                       (isinstance(s_, (ast.Assign, ast.AugAssign)) and any(isinstance(t, (ast.Attribute, ast.Subscript)) and isinstance(t.value, ast.Name) and t.value.id == prm
+                                                                           for t in (s_.targets if isinstance(s_, ast.Assign) else [s_.target]))) or
+                       (isinstance(s_, ast.Call) and isinstance(s_.func, ast.Attribute) and isinstance(s_.func.value, ast.Name) and s_.func.value.id == prm and
+                        s_.func.attr in BUILTIN_MUTATORS_)]
+            if kept or updated:
+                what = "keeps it (`" + norm(kept[0])[:80] + "`)" if kept else "updates it in place (`" + norm(updated[0])[:80] + "`)"
+                if kept and updated:
+                    what += " and updates it in place (`" + norm(updated[0])[:80] + "`)"
+                # a verdict where this property's own rules read the function (they took the parameter for the caller's / this call's object);
+                # elsewhere the class is only related to what was analysed: reported, not judged
+                (ctx.bad if qn in ctx.functions_analysed else ctx.undecided)(
+                    rule, f, d, f"default `{prm}={norm(d)}` of {qn} is one object made when the module is imported; the function {what}: every call that omits "
+                    f"`{prm}` shares it, so what one object or call does to it shows in all the others" + ("" if qn in ctx.functions_analysed else " (not a verdict)"),
+                    construct=f"{qn}({prm}=)", key=f"default:{qn}:{prm}")
+            else:
+                ctx.ok(rule, f, d, f"default `{prm}={norm(d)}` of {qn} is only read", key=f"default:{qn}:{prm}")
+    return n
+
+
 def check_unitary_record(ctx: Ctx, rule: str, nb_units: bool = True):
     """UnitaryAlignment is the record every alignment rule reads slots from: the n-tuple handed to the constructor / the n_tuple setter is the
     one `n_tuple` returns (same slots, same order, nothing merged), and `nb_units` is the number of slots whose unit is not None *of the tuple
@@ -1084,6 +1163,21 @@ def check_sampler_init(ctx: Ctx, rule: str):
                 ctx.check(uses, rule, f, s, "the ground-truth annotators that were given are the ones recorded",
                           bad_detail=f"when ground-truth annotators are given, {f.qualname} records `{norm(s.value)}` instead: chance continua are drawn from annotators the caller excluded",
                           key="sampler-init:given")
+                # ... as a set of names: the samplers make one annotator (one batch of units, one translated copy) per *entry* of the field
+                if uses:
+                    v_ = s.value
+                    if isinstance(v_, ast.Name) and v_.id == p_gt:
+                        reb = [r for r in stores_to(f.node, p_gt) if isinstance(r, ast.Assign)]
+                        v_ = reb[-1].value if len(reb) == 1 else v_
+                    seq = (isinstance(v_, ast.Name) and v_.id == p_gt) or \
+                        (isinstance(v_, ast.Call) and dotted(v_.func) in ("list", "sorted", "tuple") and v_.args and norm(v_.args[0]) == p_gt) or \
+                        (isinstance(v_, (ast.List, ast.Tuple)) and len(v_.elts) == 1 and isinstance(v_.elts[0], ast.Starred) and norm(v_.elts[0].value) == p_gt) or \
+                        (isinstance(v_, ast.ListComp) and len(v_.generators) == 1 and norm(v_.generators[0].iter) == p_gt)
+                    if seq:
+                        ctx.bad(rule, f, s, f"{f.qualname} records the ground-truth annotators as the sequence `{norm(v_)}`, not as a set of names: a name that occurs twice in "
+                                f"what the caller passed is two entries, and the samplers produce one annotator's worth of units per entry", key="sampler-init:given-set")
+                    else:
+                        ctx.ok(rule, f, s, "the ground-truth annotators are recorded through a set constructor", key="sampler-init:given-set")
             for fld, nodes in groups:
                 ctx.check(bool(nodes) and cfg.must_pass(EXIT, [n for n in nodes if n is not None]), rule, f, None,
                           f"every normal return of {f.qualname} has stored {fld} from this call's arguments",
